@@ -499,17 +499,33 @@ func init() {
 			"each on its own goroutine under a cooperative scheduler that owns every named-lock operation (trace hook; Go RWMutex semantics incl. writer preference modelled), every storage call (Backend.DB decorator) and every background task (spawn hook); " +
 			"ALL schedules with at most 2 preemptions (thorough 3; one less for the three-thread harnesses) are executed (depth-first over choice sequences, deterministic replay of the prefix, divergence is a harness error); " +
 			"oracle on every schedule: no deadlock (no enabled thread while one is unfinished), every call returns, no panic, lock acquisition order doc -> pull -> attachment -> push, C04's log oracle, and C01's convergence after the window; " +
-			"evaluations = schedules, non-trivial = schedules with at least one preemption, distinct outcomes = (scenario, result kind)",
+			"evaluations = schedules, non-trivial = schedules with at least one preemption, distinct outcomes = (scenario, result kind); " +
+			"(prim) the primitives under the pipeline, pkg/locker and pkg/cmap, in a second binary built with a `go build -overlay` that swaps \"sync\" and \"sync/atomic\" inside those two packages for scheduler-aware shims generated from the current files: EVERY mutex / RW-mutex / atomic operation inside them is a scheduling point and blocking follows the scheduler's model of Go's mutexes; " +
+			"17 (thorough 22) closed harnesses of 2-4 threads x 1-3 calls on colliding names / keys (same shard), ALL schedules with at most 3 / 2 / 2 preemptions for 2 / 3 / 4 threads (thorough 5 / 3 / 2); " +
+			"oracles: locker - mutual exclusion per name, Unlock/RUnlock never ErrNoSuchLock, no deadlock, no lock entry left behind (unless a TryLock failed: upstream keeps the waiter count then), the lock still usable afterwards; " +
+			"cmap - the call/return history of Set/Upsert/Get/Has/Delete/Delete(cond) is linearizable w.r.t. a plain map (porcupine, decided per schedule), Len/Keys/Values (shard-by-shard, not linearizable by design) report every key present during the whole call and none absent during the whole call; " +
+			"the same thread bodies also run free under the race detector (primitive race pass)",
 		Assume: []string{"memdb backend: one storage call is atomic", "preemption points are named-lock operations, storage calls and task start/end; code between two points runs atomically (data-race freedom of that code is the job of the separate free-running -race pass, not of this exploration)",
 			"clients x documents beyond 3 x 1 are not explored"},
 		QuickBudget: 300 * time.Second,
-		Run:         sCheckRun("C16", func(string) bool { return true }),
+		Run: func(env *Env) *Result {
+			res := sCheckRun("C16", func(string) bool { return true })(env)
+			// the primitives under the pipeline, at the granularity of their own mutex / atomic operations
+			primRun(env, res, "C16")
+			return res
+		},
 		Reproduce: func(f *Found) (bool, error) {
-			if f.Kind == "data-race" {
+			if f.Kind == "data-race" || strings.Contains(string(f.Case), "free_running") {
 				return true, nil // a race report is its own artefact; the pass is a detector
+			}
+			if strings.HasSuffix(f.Sig, ":prim") {
+				return primReproduce(f)
 			}
 			return sReproduce(f)
 		},
-		PostRun: racePostRun,
+		PostRun: func(res *Result, tier string) {
+			racePostRun(res, tier)
+			primRacePass(res, tier)
+		},
 	})
 }
